@@ -77,6 +77,9 @@ type Case struct {
 	// C08: per subscriber the Sends of phase 2 (1-based ordinal) that block, and for how
 	// many further writes (0 = for ever)
 	Plan [][]Block `json:"plan,omitempty"`
+	// C08: CancelSub >= 0: that (never stalled) subscriber's client goes away after write number CancelAfter
+	CancelSub   int `json:"cancel_sub"`
+	CancelAfter int `json:"cancel_after"`
 	// C08: the last subscriber starts when everything else is over (Stall 0)
 	Late      bool `json:"late,omitempty"`
 	TimeoutMs int  `json:"timeout_ms"`
